@@ -8,13 +8,15 @@ use refimpl::crypto::{self, SealCtx};
 use serde::{Deserialize, Serialize};
 
 pub const LEVEL: &str = "exploration";
-pub const RULE: &str = "case = (key material: exported session key or four independent keys; history of messages in both directions with lengths 0..300; optional tamper of one server-to-client message: bit flip, truncation, extension). Oracle: every gss_wrapex output is byte-identical to the independent MS-NLMP seal under the client keys with carried RC4 state and sequence numbers 0,1,2..; every message sealed by the reference server unseals to its plaintext; every tampered message yields Err. handshake-contexts: the context comes from Ntlm handshake(s) against the reference verifier (one or several CHALLENGEs answered by the same Ntlm object) followed by build_security_interface(), and is compared with the reference keyed by the session key recovered from the last AUTHENTICATE. bitflips section enumerates every single-bit flip, every truncation length and 1..4 byte extensions of every server message of a set of histories (fresh context, preceding messages replayed). Non-trivial = history with >= 2 messages in one direction (state continuity) or a tamper; distinct by hash of the case.";
+pub const RULE: &str = "case = (key material: exported session key or four independent keys; history of messages in both directions with lengths 0..300; optional tamper of one server-to-client message: bit flip, truncation, extension). Oracle: every gss_wrapex output is byte-identical to the independent MS-NLMP seal under the client keys with carried RC4 state and sequence numbers 0,1,2..; every message sealed by the reference server unseals to its plaintext; every tampered message yields Err, and so does every altered message presented after that rejection (the same one again, altered versions of the peer's following messages; whether genuine messages still unseal then is not asserted). Tampers: bit flips, truncations, extensions, constant overwrites of checksum / sequence number / whole header (a 'dummy signature'), forged messages. handshake-contexts: the context comes from Ntlm handshake(s) against the reference verifier (one or several CHALLENGEs answered by the same Ntlm object) followed by build_security_interface(), and is compared with the reference keyed by the session key recovered from the last AUTHENTICATE. bitflips section enumerates every single-bit flip, every truncation length and 1..4 byte extensions of every server message of a set of histories (fresh context, preceding messages replayed). Non-trivial = history with >= 2 messages in one direction (state continuity) or a tamper; distinct by hash of the case.";
 
 #[derive(Serialize, Deserialize, Hash, Clone, Debug)]
 pub enum Tamper {
     Flip { msg: u8, bit: u32 },
     Truncate { msg: u8, keep: u32 },
     Extend { msg: u8, extra: Vec<u8> },
+    /// bytes start.. of the sealed message overwritten (zeroed checksum / sequence number, forged header ...)
+    Overwrite { msg: u8, start: u8, bytes: Vec<u8> },
 }
 
 #[derive(Serialize, Deserialize, Hash, Clone, Debug)]
@@ -107,6 +109,15 @@ pub fn run(c: &Case) -> Outcome {
                     token.extend_from_slice(extra);
                     tampered = true;
                 }
+                Some(Tamper::Overwrite { msg: m, start, bytes }) if *m == s2c_index => {
+                    for (k, b) in bytes.iter().enumerate() {
+                        let i = *start as usize + k;
+                        if i < token.len() {
+                            token[i] = *b;
+                        }
+                    }
+                    tampered = token != sealed;
+                }
                 _ => {}
             }
             s2c_index = s2c_index.wrapping_add(1);
@@ -132,6 +143,7 @@ pub fn run(c: &Case) -> Outcome {
                                 }
                             }
                             Some(Tamper::Truncate { .. }) => "truncate",
+                            Some(Tamper::Overwrite { .. }) => "overwrite",
                             _ => "extend",
                         };
                         out.fail(format!("unseal:tamper-accepted:{}", region), format!("altered message #{} accepted ({:?}); original {} altered {} plaintext returned {}", i, c.tamper, hexs(&sealed), hexs(&token), hexs(&plain)));
@@ -146,7 +158,35 @@ pub fn run(c: &Case) -> Outcome {
                     if !tampered {
                         out.fail("unseal:rejected-honest", format!("honest server message #{} (len {}) rejected: {}", i, msg.len(), e));
                     }
-                    // a failed unseal leaves the cipher state advanced: the history ends here
+                    if !tampered {
+                        return out;
+                    }
+                    // Whether genuine messages still unseal after a rejection is not asserted (the cipher state may or may not
+                    // have advanced). But an altered message must be rejected however often and in whatever state it is
+                    // presented: the same altered message again, and altered versions of the peer's following messages.
+                    let mut again: Vec<Vec<u8>> = vec![token.clone(), token.clone()];
+                    for (to_server2, msg2) in c.history.iter().skip(i + 1) {
+                        if !*to_server2 {
+                            let mut t = ref_server.seal(msg2);
+                            let k = t.len() - 1;
+                            t[k.min(5)] ^= 0x01;
+                            again.push(t);
+                        }
+                    }
+                    for (n, t) in again.iter().enumerate().take(6) {
+                        let (r, _) = call(|| lib.gss_unwrapex(t));
+                        match r {
+                            Res::Panic(p) => {
+                                fail_panic(&mut out, "gss_unwrapex", &p);
+                                return out;
+                            }
+                            Res::Ok(plain) => {
+                                out.fail("unseal:tamper-accepted:after-rejection", format!("altered message presented after a rejection (attempt #{}) was accepted and yielded {} bytes of plaintext; first alteration {:?}", n, plain.len(), c.tamper));
+                                return out;
+                            }
+                            Res::Err(_) => {}
+                        }
+                    }
                     return out;
                 }
             }
@@ -285,7 +325,9 @@ pub fn decode(s: &mut Src) -> Case {
     let n_s2c = history.iter().filter(|m| !m.0).count();
     let tamper = if n_s2c > 0 && s.chance(128) {
         let msg = s.below(n_s2c) as u8;
-        Some(match s.below(4) {
+        Some(match s.below(6) {
+            4 => Tamper::Overwrite { msg, start: s.pick(&[0u8, 4, 4, 12, 4, 8]), bytes: vec![s.pick(&[0u8, 0, 0xFF, 1]); s.pick(&[4usize, 8, 12, 16])] },
+            5 => Tamper::Overwrite { msg, start: s.below(20) as u8, bytes: { let k = 1 + s.below(8); s.bytes(k) } },
             0 => Tamper::Truncate { msg, keep: s.u16() as u32 },
             1 => Tamper::Extend { msg, extra: { let k = 1 + s.below(4); let mut e = s.bytes(k); if e.is_empty() { e.push(0) } e } },
             _ => Tamper::Flip { msg, bit: s.u16() as u32 },
@@ -322,6 +364,23 @@ fn exhaustive_tamper(nhist: usize, part: usize, parts: usize) -> impl Iterator<I
             for keep in 0..tlen as u32 {
                 let mut c = base.clone();
                 c.tamper = Some(Tamper::Truncate { msg: m, keep });
+                v.push(c);
+            }
+            // constant overwrites of every header region and combination of regions
+            for (start, len) in [(0u8, 4usize), (4, 8), (12, 4), (4, 12), (0, 16), (0, 12), (8, 8)] {
+                for fillb in [0u8, 0xFF, 1] {
+                    let mut c = base.clone();
+                    c.tamper = Some(Tamper::Overwrite { msg: m, start, bytes: vec![fillb; len] });
+                    v.push(c);
+                }
+            }
+            // a forged message: version 1, zero checksum and sequence number, arbitrary ciphertext
+            {
+                let mut c = base.clone();
+                let mut forged = vec![1u8, 0, 0, 0];
+                forged.extend_from_slice(&[0; 12]);
+                forged.extend_from_slice(&[0x41; 40]);
+                c.tamper = Some(Tamper::Overwrite { msg: m, start: 0, bytes: forged });
                 v.push(c);
             }
             for k in 1..=4usize {
